@@ -152,6 +152,47 @@ def _subterms(e):
         yield from _subterms(c)
 
 
+def _free_var(e, depth=0):
+    if z3.is_var(e):
+        return z3.get_var_index(e) >= depth
+    if z3.is_quantifier(e):
+        return _free_var(e.body(), depth + e.num_vars())
+    return any(_free_var(c, depth) for c in e.children())
+
+
+def abstract_closed_quantifiers(fmls):
+    """name every closed quantified sub-formula that occurs *inside* another formula by a Boolean constant (b == Q is added
+    once), so that identical sub-formulas in hypotheses, instances and goal are the same propositional atom"""
+    names = {}
+    defs = []
+    cache = {}
+
+    def walk(e, top):
+        key = (e.get_id(), top)
+        if key in cache:
+            return cache[key]
+        if z3.is_quantifier(e):
+            if not top and not _free_var(e):
+                if e.get_id() not in names:
+                    b = z3.Bool(f"qa!{len(names)}")
+                    names[e.get_id()] = b
+                    defs.append(b == e)
+                r = names[e.get_id()]
+            else:
+                r = e
+            cache[key] = r
+            return r
+        if not z3.is_app(e) or e.num_args() == 0:
+            cache[key] = e
+            return e
+        kids = [walk(c, False) for c in e.children()]
+        r = e if all(k.get_id() == c.get_id() for k, c in zip(kids, e.children())) else e.decl()(*kids)
+        cache[key] = r
+        return r
+    out = [walk(f, True) for f in fmls]
+    return out + defs
+
+
 def _check(hyps, extra, timeout_s, opts=None):
     s = z3.Solver()
     s.set("timeout", int(timeout_s * 1000))
@@ -193,7 +234,7 @@ def _solve(i):
                 if (rounds, wide) not in hints:
                     hints[(rounds, wide)] = instantiate_hints(ob.hyps, neg, rounds=rounds, wide=wide)
                 sk, extra = hints[(rounds, wide)]
-                s2, r2 = _check(ob.hyps, list(sk) + extra, short, opts)
+                s2, r2 = _check(abstract_closed_quantifiers(list(ob.hyps) + list(sk) + extra), [], short, opts)
                 if r2 == z3.unsat:
                     return i, "PROVED", tag, time.time() - t0, model, reason
             except Exception as ex:  # pragma: no cover
